@@ -585,3 +585,224 @@ func fnName(pk string, fd *ast.FuncDecl) string {
 	}
 	return pk + "." + fd.Name.Name
 }
+
+// ---------- alpha-normalised printing ----------
+
+// localNames gives role names to the variables of a function so that patterns survive renaming:
+// receiver "$r", parameters "$p0", "$p1", ... (signature position), named results "$res0", ...,
+// and the variables declared inside `scope` (default: the whole function) "$0", "$1", ... in declaration order.
+// fn is *ast.FuncDecl or *ast.FuncLit; scope may be nil.
+func (p *Prog) localNames(fn ast.Node, scope ast.Node) map[types.Object]string {
+	info := p.infoAt(fn)
+	out := map[types.Object]string{}
+	if info == nil {
+		return out
+	}
+	var ft *ast.FuncType
+	var body ast.Node
+	switch f := fn.(type) {
+	case *ast.FuncDecl:
+		ft, body = f.Type, f.Body
+		if f.Recv != nil {
+			for _, fl := range f.Recv.List {
+				for _, n := range fl.Names {
+					out[info.Defs[n]] = "$r"
+				}
+			}
+		}
+	case *ast.FuncLit:
+		ft, body = f.Type, f.Body
+	default:
+		body = fn
+	}
+	if ft != nil {
+		k := 0
+		for _, fl := range ft.Params.List {
+			for _, n := range fl.Names {
+				out[info.Defs[n]] = fmt.Sprintf("$p%d", k)
+				k++
+			}
+			if len(fl.Names) == 0 {
+				k++
+			}
+		}
+		if ft.Results != nil {
+			k = 0
+			for _, fl := range ft.Results.List {
+				for _, n := range fl.Names {
+					out[info.Defs[n]] = fmt.Sprintf("$res%d", k)
+					k++
+				}
+			}
+		}
+	}
+	if scope == nil {
+		scope = body
+	}
+	if scope == nil {
+		return out
+	}
+	var objs []types.Object
+	seen := map[types.Object]bool{}
+	ast.Inspect(scope, func(x ast.Node) bool {
+		switch n := x.(type) {
+		case *ast.Ident:
+			o := info.Defs[n]
+			if v, ok := o.(*types.Var); ok && !v.IsField() && !seen[o] && n.Name != "_" {
+				if _, named := out[o]; !named {
+					seen[o] = true
+					objs = append(objs, o)
+				}
+			}
+		case *ast.CaseClause:
+			if o := info.Implicits[n]; o != nil {
+				out[o] = "$e" // the symbol of a type switch
+			}
+		}
+		return true
+	})
+	sort.SliceStable(objs, func(i, j int) bool { return objs[i].Pos() < objs[j].Pos() })
+	for k, o := range objs {
+		out[o] = fmt.Sprintf("$%d", k)
+	}
+	return out
+}
+
+// sxN prints n canonically and name-independently: receiver "$r", parameters "$pN" (of fn, the innermost enclosing
+// *ast.FuncDecl / *ast.FuncLit given by the caller), the symbol of a type switch "$e", every other variable declared
+// inside fn "$0", "$1", ... in order of first appearance *within n*. Package-level names, fields, functions and
+// constants keep their names. Renaming a local or a parameter does not change the output.
+func (p *Prog) sxN(fn ast.Node, n interface{}) string { return p.sxNWith(fn, n, nil) }
+
+// sxNWith is sxN with an extra substitution that is tried first.
+func (p *Prog) sxNWith(fn ast.Node, n interface{}, extra func(ast.Node) (string, bool)) string {
+	roles := p.localNames(fn, fn) // receiver/params/results; locals are renumbered below
+	info := p.infoAt(fn)
+	seen := map[types.Object]string{}
+	inFn := func(o types.Object) bool { return o.Pos() >= fn.Pos() && o.Pos() <= fn.End() }
+	return sxWith(n, func(x ast.Node) (string, bool) {
+		if extra != nil {
+			if s, ok := extra(x); ok {
+				return s, true
+			}
+		}
+		id, ok := x.(*ast.Ident)
+		if !ok || info == nil || id.Name == "_" {
+			return "", false
+		}
+		o := p.objOf(id)
+		v, isVar := o.(*types.Var)
+		if !isVar || v.IsField() {
+			return "", false
+		}
+		if r, ok := roles[o]; ok && (strings.HasPrefix(r, "$p") || strings.HasPrefix(r, "$r") || r == "$e") {
+			return r, true
+		}
+		if v.Pkg() != nil && v.Parent() == v.Pkg().Scope() {
+			return "", false // package-level variable
+		}
+		if !inFn(o) {
+			return "^" + id.Name, true // captured from an enclosing function: keep the name, marked
+		}
+		if s, ok := seen[o]; ok {
+			return s, true
+		}
+		s := fmt.Sprintf("$%d", len(seen))
+		seen[o] = s
+		return s, true
+	})
+}
+
+// hasNode reports whether some node (or statement list) inside root prints, name-independently, as pat
+// (prefix match if prefix is set).
+func (p *Prog) hasNode(fn ast.Node, root ast.Node, pat string, prefix bool) bool {
+	found := false
+	match := func(n interface{}) {
+		s := p.sxN(fn, n)
+		if s == pat || (prefix && strings.HasPrefix(s, pat)) {
+			found = true
+		}
+	}
+	ast.Inspect(root, func(x ast.Node) bool {
+		if x == nil || found {
+			return false
+		}
+		match(x)
+		switch b := x.(type) {
+		case *ast.BlockStmt:
+			match(b.List)
+		case *ast.CaseClause:
+			match(b.Body)
+		}
+		return true
+	})
+	return found
+}
+
+// sxF prints n canonically with the variables of fn replaced by their role names (see localNames).
+func (p *Prog) sxF(fn ast.Node, n interface{}) string { return p.sxS(fn, nil, n) }
+
+// sxS is sxF with local numbering restricted to the declarations inside scope (a case clause, a block).
+func (p *Prog) sxS(fn ast.Node, scope ast.Node, n interface{}) string {
+	names := p.localNames(fn, scope)
+	return sxWith(n, func(x ast.Node) (string, bool) {
+		if id, ok := x.(*ast.Ident); ok {
+			if s, ok := names[p.objOf(id)]; ok {
+				return s, true
+			}
+		}
+		return "", false
+	})
+}
+
+// ---------- assertion idioms ----------
+
+// assertion is a condition that holds for everything its node dominates.
+type assertion struct {
+	node ast.Node // the Assert call, or the condition of the guarding if
+	cond ast.Expr // the condition in positive form
+}
+
+var flipOp = map[token.Token]token.Token{token.LSS: token.GEQ, token.GEQ: token.LSS, token.GTR: token.LEQ, token.LEQ: token.GTR, token.EQL: token.NEQ, token.NEQ: token.EQL}
+
+// asserted enumerates the assertion idioms of this repository in body (not inside nested literals):
+//
+//	util.Assert(c, ..)                      asserts c
+//	if !c { panic(..) / util.Unreachable }  asserts c
+//	if a OP b { panic(..) }                 asserts a !OP b
+func (p *Prog) asserted(body ast.Node) []assertion {
+	var out []assertion
+	inspectNoLit(body, func(x ast.Node) bool {
+		switch s := x.(type) {
+		case *ast.CallExpr:
+			if p.calleeName(s) == "util.Assert" && len(s.Args) > 0 {
+				out = append(out, assertion{s, s.Args[0]})
+			}
+		case *ast.IfStmt:
+			if s.Else != nil || s.Init != nil || len(s.Body.List) == 0 {
+				return true
+			}
+			last, ok := s.Body.List[len(s.Body.List)-1].(*ast.ExprStmt)
+			if !ok {
+				return true
+			}
+			ce, ok := last.X.(*ast.CallExpr)
+			if !ok || !p.noReturn(ce) {
+				return true
+			}
+			switch cnd := unparen(s.Cond).(type) {
+			case *ast.UnaryExpr:
+				if cnd.Op == token.NOT {
+					out = append(out, assertion{s.Cond, cnd.X})
+				}
+			case *ast.BinaryExpr:
+				if f, ok := flipOp[cnd.Op]; ok {
+					out = append(out, assertion{s.Cond, &ast.BinaryExpr{X: cnd.X, OpPos: cnd.OpPos, Op: f, Y: cnd.Y}})
+				}
+			}
+		}
+		return true
+	})
+	sort.SliceStable(out, func(i, j int) bool { return out[i].node.Pos() < out[j].node.Pos() })
+	return out
+}
